@@ -7,17 +7,51 @@
     VCC, EXEC, M0, PC, every other SGPR/VGPR, memory and LDS. *)
 From Coq Require Import ZArith List Bool Lia.
 Import ListNotations.
-From VIsa Require Import IsaState ExecImpl ExecSpec ExecProofs ExecRefute.
+From VIsa Require Import IsaState ExecImpl ExecSpec ExecProofs ExecRows ExecRefute.
 Open Scope Z_scope.
 
-(** SOP2 rows proved for every state and every covered operand kind.  The
-    boolean says whether the row also holds for the operand kinds that
-    ReadOperand delivers with 64 bits (VCC_LO, inline constants -1..-16). *)
-Theorem impl_eq_spec_sop2 : forall a st i wide,
-  In (i_op i, wide) (sop2_proved32 a) -> wf st -> i_fmt i = F_SOP2 -> 0 <= i_lit i < W32 ->
-  adm32 wide (i_src0 i) -> adm32 wide (i_src1 i) -> admd32 (i_dst i) -> agree a st i.
-Proof. exact sop2_agree. Qed.
+(** SOP2, 32-bit rows: every opcode either ALU implements (after the repairs of
+    this round), every well-formed state, every covered operand kind including
+    negative inline constants (which ReadOperand delivers as 64-bit values). *)
+Theorem impl_eq_spec_sop2 : forall a st i,
+  In (i_op i) (sop2_rows32 a) -> wf st -> i_fmt i = F_SOP2 -> 0 <= i_lit i < W32 ->
+  adm32 true (i_src0 i) -> adm32 true (i_src1 i) -> admd32 (i_dst i) -> agree a st i.
+Proof. exact sop2_32_agree. Qed.
 Print Assumptions impl_eq_spec_sop2.
+
+(** SOP2, 64-bit rows (logic, shifts, S_CSELECT_B64). *)
+Theorem impl_eq_spec_sop2_b64 : forall a st i,
+  In (i_op i) (sop2_rows64 a) -> wf st -> i_fmt i = F_SOP2 -> 0 <= i_lit i < W32 ->
+  adm64 (i_src0 i) -> adm64 (i_src1 i) -> admd64 (i_dst i) -> agree a st i.
+Proof. exact sop2_64_agree. Qed.
+Print Assumptions impl_eq_spec_sop2_b64.
+
+(** SOP1: S_MOV_B32, S_NOT_B32, S_ABS_I32 (GCN3); S_MOV_B64; S_GETPC_B64; the
+    eight S_*_SAVEEXEC_B64. *)
+Theorem impl_eq_spec_sop1 : forall a st i,
+  In (i_op i) (sop1_rows32 a) -> wf st -> i_fmt i = F_SOP1 -> 0 <= i_lit i < W32 ->
+  adm32 true (i_src0 i) -> admd32 (i_dst i) -> agree a st i.
+Proof. exact sop1_32_agree. Qed.
+Print Assumptions impl_eq_spec_sop1.
+Theorem impl_eq_spec_sop1_mov64 : forall a st i, wf st -> i_fmt i = F_SOP1 -> i_op i = 1 ->
+  0 <= i_lit i < W32 -> adm64 (i_src0 i) -> admd64 (i_dst i) -> agree a st i.
+Proof. exact sop1_mov64_agree. Qed.
+Print Assumptions impl_eq_spec_sop1_mov64.
+Theorem impl_eq_spec_sop1_getpc : forall a st i, wf st -> i_fmt i = F_SOP1 -> i_op i = 28 ->
+  admd64 (i_dst i) -> agree a st i.
+Proof. exact sop1_getpc_agree. Qed.
+Print Assumptions impl_eq_spec_sop1_getpc.
+Theorem impl_eq_spec_sop1_saveexec : forall a st i, wf st -> i_fmt i = F_SOP1 ->
+  In (i_op i) saveexec_ops -> 0 <= i_lit i < W32 -> adm64 (i_src0 i) -> admd64 (i_dst i) -> agree a st i.
+Proof. exact sop1_saveexec_agree. Qed.
+Print Assumptions impl_eq_spec_sop1_saveexec.
+
+(** SOPK: S_MOVK_I32, S_CMOVK_I32, S_CMPK_EQ_I32, S_CMPK_LG_I32, S_MULK_I32, every
+    immediate, every destination kind. *)
+Theorem impl_eq_spec_sopk : forall a st i, wf st -> i_fmt i = F_SOPK -> In (i_op i) sopk_ops ->
+  admd32 (i_dst i) -> agree a st i.
+Proof. exact sopk_agree. Qed.
+Print Assumptions impl_eq_spec_sopk.
 
 (** SOPC: every compare either ALU implements, every operand kind. *)
 Theorem impl_eq_spec_sopc : forall a st i,
@@ -53,6 +87,19 @@ Proof.
 Qed.
 Print Assumptions gcn3_cdna3_agree_sopc.
 
+Corollary gcn3_cdna3_agree_sop2 : forall st i,
+  In (i_op i) (sop2_rows32 GCN3) -> wf st -> i_fmt i = F_SOP2 -> 0 <= i_lit i < W32 ->
+  adm32 true (i_src0 i) -> adm32 true (i_src1 i) -> admd32 (i_dst i) ->
+  exists s1 s2, exec_scalar GCN3 st i = Some s1 /\ exec_scalar CDNA3 st i = Some s2 /\ state_eq s1 s2.
+Proof.
+  intros st i Hop Hwf Hf Hl H0 H1 Hd. apply agree_both.
+  - intros _ E. rewrite E in Hop. unfold sop2_rows32 in Hop. cbn [In] in Hop. intuition discriminate.
+  - apply sop2_32_agree; auto.
+  - apply sop2_32_agree; auto. unfold sop2_rows32 in *. cbn [In] in *.
+    repeat (destruct Hop as [Hop|Hop]; [rewrite <- Hop; tauto|]). contradiction.
+Qed.
+Print Assumptions gcn3_cdna3_agree_sop2.
+
 (** * Full-strength statement and its refutations.
     [conforms a f op wide]: the handler of (ALU a, format f, opcode op) agrees
     with the manual on every well-formed state and all covered operands. *)
@@ -74,16 +121,6 @@ Theorem cdna3_deviations_refuted : ~ conforms CDNA3 F_SOP1 48 false.
 Proof. apply refuted_not_conforms. exact c_abs_i32. Qed.
 Print Assumptions cdna3_deviations_refuted.
 
-(** Rows that hold on narrow operands only: the 64-bit value ReadOperand returns
-    for an inline constant -1..-16 leaks into a 32-bit operation. *)
-Theorem wide_operand_refuted :
-  ~ conforms GCN3 F_SOP2 30 true /\ ~ conforms CDNA3 F_SOP2 7 true /\ ~ conforms CDNA3 F_SOP2 44 true.
-Proof.
-  repeat split; apply refuted_not_conforms.
-  exact g_lshr_b32_wide. exact c_min_u32_wide. exact c_mul_hi_wide.
-Qed.
-Print Assumptions wide_operand_refuted.
-
 (** Operand kinds: s_mov_b32 s2, vccz and s_mov_b32 s2, execz panic. *)
 Theorem special_operand_refuted :
   operand_refuted GCN3 251 2 /\ operand_refuted CDNA3 251 2 /\
@@ -102,7 +139,7 @@ Example ex_add_carry :     (* s_add_u32 s2, s0, s1 with s0 = 0xffffffff, s1 = 1:
   | _, _ => False
   end.
 Proof. vm_compute. repeat split. Qed.
-Example ex_hyp_sop2 : In (i_op (i2 0 0 1 2), true) (sop2_proved32 GCN3) /\ adm32 true 0 /\ adm32 true 106 /\ adm32 false 107 /\ admd32 126.
+Example ex_hyp_sop2 : In (i_op (i2 0 0 1 2)) (sop2_rows32 GCN3) /\ adm32 true 0 /\ adm32 true 106 /\ adm32 false 107 /\ admd32 126.
 Proof. repeat split; cbn; unfold adm32, admd32; auto; lia. Qed.
 Example ex_branch_taken :  (* s_cbranch_scc0 -2 from pc = 1024 *)
   match exec_scalar GCN3 ex_state (mkInst F_SOPP 4 (-1) (-1) (-1) (-1) 65534 0) with
